@@ -45,6 +45,11 @@ def check(run):
         run.guard("C07.via.C04.1.routing", cfg, lambda: _C04.rule_routing(b2, F, cfg))
         b3 = run.borrow("C04", only=r"table:", why="which lists are probed (with the enabled tags) for a query")
         run.guard("C07.via.C04.2.precedence", cfg, lambda: _C04.rule_verdict_table(b3, F, cfg))
+        from . import C03 as _C03, C01 as _C01
+        b4 = run.borrow("C03", only=r"string-payloads-verbatim", why="the rule's tag is compared verbatim with the enabled tags")
+        run.guard("C07.via.C03.1.option-chain", cfg, lambda: _C03.rule_payloads(b4, F, cfg))
+        b5 = run.borrow("C01", why="rules that differ only in their tag are different rules (not de-duplicated)")
+        run.guard("C07.via.C01.7.rule-identity", cfg, lambda: _C01.rule_identity(b5, F, cfg))
 
 
 def probes(F, run=None):
